@@ -30,8 +30,10 @@ def make_spec(ops):
     for o in ops:
         names = re.findall(r"\{([^}]+)\}", o["template"])
         op = {"operationId": o["id"], "responses": c04.make_spec(o["responses"])["paths"]["/x"]["get"]["responses"],
-              "parameters": [{"name": nm, "in": "path", "required": True, "schema": {"type": "string"}} for nm in names]}
+              "parameters": [{"name": nm, "in": "path", "required": True, "schema": {"type": "string"}} for nm in names] + o.get("op_params", [])}
         paths.setdefault(o["template"], {})[o["method"]] = op
+        if o.get("path_params"):
+            paths[o["template"]]["parameters"] = o["path_params"]
     sp = c04.make_spec([])
     sp["paths"] = paths
     return sp
@@ -60,6 +62,18 @@ def main(tier, seed, replay=None):
     probe, err = c09.build_probe()
     rnd = random.Random(seed)
     cases = [gen_case(rnd) for _ in range(150 if tier == "quick" else 1500)]
+    # deterministic: every status the generator has a name for, as a response key (three operations)
+    import re as _re
+    allcodes = _re.findall(r'\("(\d{3}|\dxx)", ', open(os.path.join(vlib.COQ, "Gen", "StatusTable.v")).read())
+    allkeys = [c.upper() for c in allcodes] + ["418", "599", "default"]
+    third = (len(allkeys) + 2) // 3
+    cases.append([{"template": f"/all{k}", "method": "get", "id": f"all{k}x", "responses": [(key, c04.CONTENT_SHAPES[1]) for key in allkeys[k * third:(k + 1) * third]]} for k in range(3)])
+    # deterministic: path-level and operation-level parameters, same name in different locations
+    cases.append([{"template": "/r/{id}", "method": "get", "id": "paramsx", "responses": [("200", [])],
+                   "path_params": [{"name": "version", "in": "query", "schema": {"type": "string"}}, {"name": "shared", "in": "header", "schema": {"type": "string"}},
+                                   {"name": "limit", "in": "query", "schema": {"type": "integer"}}],
+                   "op_params": [{"name": "version", "in": "header", "schema": {"type": "string"}}, {"name": "shared", "in": "query", "schema": {"type": "integer"}},
+                                 {"name": "limit", "in": "query", "schema": {"type": "string"}}, {"name": "X-Only", "in": "header", "schema": {"type": "boolean"}}]}])
     if replay:
         cases = [json.load(open(replay))["ops"]]
     d = vlib.scratch("C05")
@@ -72,6 +86,12 @@ def main(tier, seed, replay=None):
         return rc, txt, outd
     outs = vlib.pmap(one, range(len(cases)))
     rbs = vlib.vtool_lines("server", [o[2] for o in outs])
+    tdumps = vlib.vtool_lines("dump", [os.path.join(o[2], "types.rs") for o in outs])
+    pnames = sorted({prm["name"] for ops in cases for o in ops for prm in o.get("path_params", []) + o.get("op_params", [])})
+    field_names = {}
+    if pnames:
+        prn = subprocess.run([probe], input="\n".join(c09.hx(n.encode()) for n in pnames) + "\n", stdout=subprocess.PIPE, text=True)
+        field_names = {n: c09.unhx(l.split(" ")[0]).decode() for n, l in zip(pnames, prn.stdout.split("\n"))}
     # field names of path parameters through the real sanitiser
     allnames = sorted({nm for ops in cases for o in ops for nm in re.findall(r"\{([^}]+)\}", o["template"])})
     pr = subprocess.run([probe], input="\n".join(c09.hx(n.encode()) for n in allnames) + "\n", stdout=subprocess.PIPE, text=True)
@@ -130,6 +150,29 @@ def main(tier, seed, replay=None):
             hd = rb["handlers"].get(h or "", {})
             if h and not hd.get("err_500"):
                 viol.append((ops, f"handler {h}: a service error is not mapped to 500"))
+        # parameters: path-item level merged with operation level, operation wins on (in, name); every effective
+        # query/header parameter must be a member of the request's query/header struct, with a matching extractor
+        for o in ops:
+            eff = {}
+            for prm in o.get("path_params", []) + o.get("op_params", []):
+                eff[(prm["in"], prm["name"])] = prm
+            if not eff:
+                continue
+            h = handler_by_op.get((o["method"], o["template"]))
+            ext = " ".join(rb["handlers"].get(h or "", {}).get("extractors", []))
+            tdump = tdumps[i]
+            for (loc, nm), prm in eff.items():
+                sname = {"query": "Query", "header": "Header"}.get(loc)
+                if sname is None:
+                    continue
+                structs = [x for x in tdump.get("items", []) if x["kind"] == "struct" and x["name"].endswith("Request" + sname)]
+                fieldnames = [f["name"] for st in structs for f in st["fields"]]
+                want = field_names[nm]
+                n_eval += 1
+                if want not in fieldnames:
+                    viol.append((ops, f"{o['method'].upper()} {o['template']}: declared {loc} parameter {nm!r} is not a member of the request's {sname.lower()} struct (members {fieldnames})"))
+                if (loc == "query" and "Query(query)" not in ext) or (loc == "header" and "HeaderMap" not in ext):
+                    viol.append((ops, f"{o['method'].upper()} {o['template']}: no {loc} extractor in the handler although {nm!r} is declared ({ext})"))
         if len(flat) != len(ops):
             if any(o["method"] == "trace" for o in ops) and len(flat) == len(ops) + sum(1 for o in ops if o["method"] == "trace"):
                 known_hits.add("trace-listed-twice")
